@@ -231,7 +231,9 @@ class SolverRun:
 
     def __init__(self, problem, r=2.0, eps=0.01, limit=200, m=10, refine=False, fault=None, listener="rec",
                  extra_listeners=(), tag="", full_snap=True, events=None, cbs=("before", "enditer", "stop"),
-                 extra_first=False, probing=False, lip=None, fmin=None, params=None):
+                 extra_first=False, probing=False, lip=None, fmin=None, params=None, judge=(0, 1)):
+        # judge = (from, stride): the arg-max clause (all intervals compared - the costly one) is judged at every trial by default; very long
+        # runs judge it from trial `from` on at every `stride`-th trial (the state is tracked at every trial all the same)
         self.tid = next(SolverRun._tid)
         self.events = events if events is not None else []
         self.rp = RecProblem(problem, fault=fault)
@@ -255,7 +257,8 @@ class SolverRun:
         self.emit({"ev": "init", "n": self.n, "m": int(m), "lo": qv(self.rp.lowerBoundOfFloatVariables),
                    "up": qv(self.rp.upperBoundOfFloatVariables), "r": q(float(r)), "eps": q(float(eps)),
                    "limit": int(limit), "refine": bool(refine), "tag": tag, "cbs": self.cbs, "probing": bool(probing),
-                   "lip": q(float(lip)) if lip is not None else "none", "fmin": q(float(fmin)) if fmin is not None else "none"})
+                   "lip": q(float(lip)) if lip is not None else "none", "fmin": q(float(fmin)) if fmin is not None else "none",
+                   "jfrom": int(judge[0]), "jstride": int(judge[1])})
 
     def emit(self, e):
         e["tid"] = self.tid
